@@ -14,5 +14,6 @@ open XotModel.Props
 #print axioms C15_keeps_undeclarations_unique_needed
 #print axioms C15_idem_partial
 #print axioms C15_idem_partial_tree
-#print axioms C15_idem_needs_noShadow
+#print axioms C15_idem_partial_noShadowing
+#print axioms C15_idem_needs_noRebind
 #print axioms C15_idem_needs_noFlag
